@@ -58,6 +58,14 @@ class ParseInterp(Interp):
         if o.name == "types_factory" and name == "for_property":
             def for_property(i, a, k):
                 nm = self._str(a[0])
+                # the factory method as written, with every argument the loop passes
+                # (an exception raised in there leaves the loop like any other)
+                tf = self.__dict__.get("_tf_instance")
+                if tf is None:
+                    tf = self.instantiate(self.model.cls("prop.TypesFactory"), [], {})
+                    self.__dict__["_tf_instance"] = tf
+                real = self.call(self.getattr(tf, "for_property"), list(a), dict(k))
+                self.log.append(("codec", nm, real.ci.name if isinstance(real, ClassVal) else repr(real)))
                 if nm.upper() in REAL_CODECS:
                     # the real codec class (text-like: interpreted as written), so that
                     # sharing of value objects between lines is visible
@@ -150,7 +158,17 @@ EXTRA = [
     ("ATTENDEE;CN=A:mailto:x", "ATTENDEE", {"CN": "A"}, "mailto:x", False),
     ("ATTENDEE;ROLE=B:mailto:x", "ATTENDEE", {"ROLE": "B"}, "mailto:x", False),
     ("ORGANIZER;CN=C:mailto:x", "ORGANIZER", {"CN": "C"}, "mailto:x", False),
+    ("FREEBUSY:a,BADb", "FREEBUSY", {}, "a,BADb", False),
+    ("FREEBUSY:BADa,b", "FREEBUSY", {}, "BADa,b", False),
+    ("X-FOO;VALUE=DATE:v", "X-FOO", {"VALUE": "DATE"}, "v", False),
+    ("X-FOO;VALUE=A,B:v", "X-FOO", {"VALUE": ["A", "B"]}, "v", False),
+    ("X-FOO;VALUE=DATE:v,w", "X-FOO", {"VALUE": "DATE"}, "v,w", False),
+    ("DTSTART;VALUE=DATE,PERIOD:v", "DTSTART", {"VALUE": ["DATE", "PERIOD"]}, "v", False),
 ]
+
+
+def _pv(v):
+    return tuple(v) if isinstance(v, list) else v
 
 
 class RefComp:
@@ -210,7 +228,7 @@ def reference(model, lines, multiple):
                 top.errors.append((uname,))
                 continue
             for v in raw:
-                top.items.setdefault(uname, []).append((v, tz, tuple(sorted(pu.items()))))
+                top.items.setdefault(uname, []).append((v, tz, tuple(sorted((k, _pv(x)) for k, x in pu.items()))))
     if multiple:
         return ("ok", tuple(c.struct() for c in comps)), cached
     if len(comps) != 1:
@@ -231,7 +249,7 @@ def observed_struct(it, comp):
         for x in vals:
             d = x.attrs.get("decoded") if isinstance(x, Obj) else None
             p = x.attrs.get("params") if isinstance(x, Obj) else None
-            ps = tuple(sorted((kk, vv) for kk, vv in p.items.items())) if isinstance(p, Obj) and p.items is not None else None
+            ps = tuple(sorted((kk, _pv(vv)) for kk, vv in p.items.items())) if isinstance(p, Obj) and p.items is not None else None
             if isinstance(d, tuple) and d and d[0] == "decoded":
                 row.append((d[2], d[3], ps))
             elif isinstance(x, Obj) and x.strval is not None:
@@ -289,6 +307,11 @@ def explore(ctx, max_len, extra_sequences=True):
              "ORGANIZER;CN=C:mailto:x", "END", "BEGIN:VTODO", "ATTENDEE;ROLE=B:mailto:x", "END", "END"],
             ["BEGIN:VTODO", "COMMENT:", "COMMENT:x", "COMMENT:", "COMMENT:x", "END"],
             ["BEGIN:VTODO", "COMMENT:x", "COMMENT:", "END"],
+            ["begin:vevent", "SUMMARY:a", "FREEBUSY:a,BADb", "COMMENT:x", "END"],
+            ["begin:vevent", "FREEBUSY:BADa,b", "FREEBUSY;TZID=Z:a,b", "END"],
+            ["BEGIN:VTODO", "FREEBUSY:a,BADb", "END"],
+            ["begin:vevent", "X-FOO;VALUE=DATE:v", "X-FOO;VALUE=A,B:v", "X-FOO;VALUE=DATE:v,w", "END"],
+            ["BEGIN:VTODO", "X-FOO;VALUE=A,B:v", "DTSTART;VALUE=DATE,PERIOD:v", "END"],
         ]
         for c in curated:
             seqs.append([A[x] for x in c])
@@ -379,7 +402,7 @@ def deviations(ctx, max_len=None):
             case_only = run_sequence(ctx.model, cls, useq, multiple) == reference(ctx.model, useq, multiple)
         out.append(dict(labels=labels, multiple=multiple, got=got, exp=exp,
                         cause=classify(labels, got, exp),
-                        has_bad=any(l[4] or l[3].startswith("BAD") for l in seq),
+                        has_bad=any(l[4] or any(v.startswith("BAD") for v in l[3].split(",")) for l in seq),
                         case_only=case_only))
     _CACHE[key] = (n, out)
     return n, out
